@@ -2,7 +2,7 @@
    mutable state.  Only statements, closed by [exact], each followed by Print Assumptions. *)
 From Coq Require Import ZArith NArith List Bool.
 Require Import Tree Graph GraphEdit C06_Graph C06_GraphRun C06_GraphProofs.
-Require Import ListN Result Bytes Prog Codec PoseRead PoseReadLemmas StreamLemmas C06_Heap C06_HeapProofs CodecGenTie.
+Require Import ListN Result Bytes Prog Codec PoseRead PoseReadLemmas StreamLemmas StreamRead StreamBack StreamIndep C06_Heap C06_HeapProofs CodecGenTie.
 Import ListNotations.
 Open Scope N_scope.
 
@@ -152,6 +152,49 @@ Theorem C06_graph_example_structural :
   NoDup (memo_cells s ++ cells_of s 0 ++ cells_of s 1 ++ cells_of s 2).
 Proof. exact ex_ghistory2_runs. Qed.
 Print Assumptions C06_graph_example_structural.
+
+(* Streams at the object-graph level.  [GReadS file a] is Pose.read of a seekable stream (BytesIOReader when a window is asked
+   for).  After ANY history - byte reads, stream reads, in-place and structural edits, copies - a windowed stream read hands out a
+   new Pose object holding the pose the same read returns in a fresh process (or raises where that one raises); earlier results
+   keep their values and cells; the invariant (hence no sharing) holds in every reachable state including those reached through
+   stream reads (C06_graph_invariant_reachable quantifies over all six kinds of operation). *)
+Theorem C06_graph_stream_history_independent :
+  forall legacy ops file a, any_arg a = true -> (forall h, v2prog (read_body legacy h a)) ->
+    let s := run_g legacy ginit ops in
+    let r := read_gs legacy s file a in
+    match fst (fst (read_stream legacy None file a)) with
+    | Ok p => exists ap, fst r = Ok ap /\ pose_at (snd r) (length (ghanded s)) = Some p
+    | Err _ => exists e, fst r = Err e
+    end.
+Proof. exact history_independent_gs. Qed.
+Print Assumptions C06_graph_stream_history_independent.
+Theorem C06_graph_stream_read_keeps_others :
+  forall legacy s file a, GInv s -> forall j, (j < length (ghanded s))%nat ->
+    pose_at (snd (read_gs legacy s file a)) j = pose_at s j /\ cells_of (snd (read_gs legacy s file a)) j = cells_of s j.
+Proof. exact read_gs_keeps_others. Qed.
+Print Assumptions C06_graph_stream_read_keeps_others.
+Theorem C06_graph_example_stream :
+  let s := run_g no_legacy ginit ex_ghistory3 in
+  length (ghanded s) = 3%nat /\
+  option_map (fun p => h_dims (p_header p)) (pose_at s 0) = Some (1, 2, 3) /\
+  pose_at s 1 = match fst (fst (read_stream no_legacy None ex_file ex_win)) with Ok p => Some p | Err _ => None end /\
+  pose_at s 1 <> None /\ pose_at s 1 <> pose_at s 0 /\
+  pose_at s 2 = match fst (read_bytes no_legacy None ex_file no_args) with Ok p => Some p | Err _ => None end /\
+  NoDup (memo_cells s ++ cells_of s 0 ++ cells_of s 1 ++ cells_of s 2).
+Proof. exact ex_ghistory3_runs. Qed.
+Print Assumptions C06_graph_example_stream.
+
+(* Value level, full strength: a windowed stream read of ANY byte string under ANY sound memo returns what it returns in a fresh
+   process (same pose, or both raise) - this replaces the partial statement below, which is kept for its exact error-free form *)
+Theorem C06_stream_windowed :
+  forall legacy m q a, MemoOK m -> any_arg a = true -> (forall h, v2prog (read_body legacy h a)) ->
+    same_outcome (fst (fst (read_stream legacy m q a))) (fst (fst (read_stream legacy None q a))).
+Proof. exact read_stream_memo_independent. Qed.
+Print Assumptions C06_stream_windowed.
+Theorem C06_stream_memo_stays_sound :
+  forall legacy m q a, MemoOK m -> MemoOK (snd (fst (read_stream legacy m q a))).
+Proof. exact read_stream_memo_ok. Qed.
+Print Assumptions C06_stream_memo_stays_sound.
 
 (* streams (partial: the windowed clause covers reads whose bytes result is Ok and v0.2 bodies) *)
 Theorem C06_stream_windowed_partial :
